@@ -1,20 +1,46 @@
-(* The mode logic regenerated from LDAWrapper.solve (GenC06.ModeGen) is the committed model (Model/Lda.v),
-   for ALL arguments.  A semantic change of the source breaks one of these lemmas. *)
+(* The mode logic regenerated from LDAWrapper.solve (GenC06.ModeGen, tools/gen_C06.py) is the committed model
+   (Model/Lda.v) for ALL arguments, and the mode-table theorem holds for the regenerated booleans.
+   A semantic change of the source breaks one of these lemmas. *)
 From Coq Require Import ZArith List Bool.
-From Pymoto Require Import Base.Fld Model.Lda.
+From Pymoto Require Import Base.Fld Base.FldP Model.Lda Proofs.LdaP.
 From GenC06 Require Import ModeGen.
 Import ListNotations.
 Open Scope Z_scope.
 
+(* equal as boolean functions (robust against reordering / re-association of the source expression) *)
+Ltac boolcases :=
+  intros; cbv beta delta [gen_trans_valid gen_adjoint_mode gen_conj_mode gen_storage
+                          trans_valid adjoint_mode conj_mode storage_of];
+  repeat match goal with |- context [Z.eqb ?a ?b] => destruct (Z.eqb a b) end;
+  repeat match goal with x : bool |- _ => destruct x end; reflexivity.
 Lemma gen_trans_valid_eq t : gen_trans_valid t = trans_valid t.
-Proof. reflexivity. Qed.
+Proof. boolcases. Qed.
 Lemma gen_adjoint_mode_eq s h t : gen_adjoint_mode s h t = adjoint_mode s h t.
-Proof. reflexivity. Qed.
+Proof. boolcases. Qed.
 Lemma gen_conj_mode_eq s h t : gen_conj_mode s h t = conj_mode s h t.
-Proof. reflexivity. Qed.
+Proof. boolcases. Qed.
 Lemma gen_storage_eq am : gen_storage am = storage_of am.
-Proof. reflexivity. Qed.
+Proof. boolcases. Qed.
 Lemma gen_conj_rhs_eq cm : gen_conj_rhs cm = cm /\ gen_conj_ret cm = cm.
 Proof. split; reflexivity. Qed.
 Lemma gen_dispatch_eq : gen_dispatch = dispatch_table.
 Proof. reflexivity. Qed.
+
+(* each storage value is dispatched to the branch the model takes: adjoint mode -> (A.conj().T, adjoint database,
+   inner trans 'H'), otherwise (A, normal database, inner trans 'N') *)
+Lemma gen_dispatch_branch (am : bool) :
+  In (gen_storage am, if am then 2 else 0, if am then 1 else 0, if am then 2 else 0) gen_dispatch.
+Proof. rewrite gen_storage_eq, gen_dispatch_eq. destruct am; simpl; auto. Qed.
+
+Theorem gen_mode_table : forall (F : Type) (I : Fld F), FldLaws F ->
+  forall (sym herm : bool) (t : Z) (A : mat F) (y b : vec F),
+  gen_trans_valid t = true -> truthful sym herm A ->
+  mv (if gen_adjoint_mode sym herm t then mH A else A) y =
+    (if gen_conj_rhs (gen_conj_mode sym herm t) then vconj b else b) ->
+  mv (op_mat t A) (if gen_conj_ret (gen_conj_mode sym herm t) then vconj y else y) = b.
+Proof.
+  intros F I L sym herm t A y b. rewrite gen_trans_valid_eq, gen_adjoint_mode_eq, gen_conj_mode_eq.
+  destruct (gen_conj_rhs_eq (conj_mode sym herm t)) as [-> ->].
+  exact (@mode_table F I L sym herm t A y b).
+Qed.
+Print Assumptions gen_mode_table.
